@@ -119,8 +119,8 @@ def run(ctx):
     ctx.cov["checker_cmd"] = "coqc -Q coq/Values BWValues coq/Values/Props/C05.v ; work/bin/h_values -mode values|graph ; model evaluated by coqc (vm_compute) on the generated cases"
     thorough = ctx.tier == "thorough"
     seed = str(ctx.seed)
-    rows = vc.hrows(["-mode", "values", "-seed", seed, "-n", "30000" if thorough else "1000"])
-    rows += vc.hrows(["-mode", "graph", "-seed", seed, "-n", "1500" if thorough else "40"])
+    rows = vc.hrows(["-mode", "values", "-seed", seed, "-n", "30000" if thorough else "800"])
+    rows += vc.hrows(["-mode", "graph", "-seed", seed, "-n", "1500" if thorough else "30"])
     bad, dom, ill = vc.model_eval(ctx, "cases_c05", rows)
     for i in bad[:5]:
         ctx.violation({"kind": "model-vs-implementation", "case": vc.strip(rows[i]),
